@@ -51,6 +51,8 @@ class Scheduler(object):
             self.point('start')
             fn()
         except BaseException as e:  # noqa
+            import traceback as _tb
+            self.last_traceback = _tb.format_exc()
             self.errors.append((tid, type(e).__name__ + ': ' + str(e)))
         finally:
             with self.cv:
